@@ -309,6 +309,12 @@ func (fx *FnCtx) contractCallWithNames(st *State, pc *Term, fc *FuncContract, na
 		_ = o
 		fx.assume(Implies(pc, cond))
 	}
+	// a callee that panics under a stated condition must not be called under it (nothing recovers)
+	for _, c := range fc.Panics {
+		cond := Not(fx.evalBool(pre, c.Expr))
+		fx.addObl(fx.oblName("nopanic("+fc.Name+")"), "panic", pc, cond, c.Props, nil, "call does not meet the panic condition of "+fc.Name+": "+c.Src)
+		fx.assume(Implies(pc, cond))
+	}
 	items := fx.evalFrame(pre, fc.Modifies, fc.ModSrc)
 	// callee frame within caller frame
 	for _, it := range items {
